@@ -150,6 +150,9 @@ def subjects(tier):
   add('hyper/oneof', "o = pg.oneof([pg.Dict(a=1), 2, [3]])")
   add('hyper/nested', "o = pg.Dict(a=pg.oneof([pg.oneof([1, 2]), pg.Dict(x=pg.floatv(0.0, 1.0))]), b=pg.manyof(2, [1, 2, pg.Dict(y=3)]))")
   add('ref/partial-flag', "o = pg.Dict(r=pg.Ref(SHARED, allow_partial=True), l=[pg.Ref([1], allow_partial=True)])")
+  add('ref/sealed-in-unsealed-parent', "o = pg.Dict(r=pg.Ref(SHARED).seal(), l=[pg.Ref([1]).seal()])")
+  add('object/sealed-leaf-objects-in-unsealed-containers',
+      "o = pg.List([A(x=1).seal(), pg.Dict(k=TY(n=1).seal()), fn(a=1).seal()])")
   add('hyper/partial', "o = pg.hyper.OneOf(candidates=[TY.partial(), 1], allow_partial=True)")
   # The same values sealed as a whole after construction.
   for label, src in list(S):
@@ -421,8 +424,14 @@ def drv_clone_fidelity(tier, seed):
   for label, src in subs:
     base_fail = {}
     base_raised = set()
+    try:
+      build(src)
+    except Exception as e:  # pylint: disable=broad-except
+      rec.case('subject-construction/raises', (label,), False,
+               f'[{label}] {src!r} raised {type(e).__name__}: {e}', _wit(src, []))
+      continue
     for depth, expr in BASES:
-      env = build(src)   # a subject that cannot be built is a harness error
+      env = build(src)
       before = _snap(_root_of(env))
       try:
         _exec(f'c = {expr}', env)
